@@ -68,6 +68,11 @@ def source(spec):
     if kind == 'dict':
         _, pairs, warranty = spec
         return lazy_dataset.new({k: v for k, v in pairs}, immutable_warranty=warranty)
+    if kind == 'special':
+        vals = fns.special_values(spec[1])
+        if spec[2]:
+            return lazy_dataset.new({f'k{i}': v for i, v in enumerate(vals)})
+        return lazy_dataset.new(list(vals))
     if kind == 'DictDataset':
         return lazy_dataset.core.DictDataset({k: v for k, v in spec[1]})
     raise ValueError(spec)
